@@ -217,7 +217,7 @@ Definition bad := bad_from 0%nat.
 
 (** Translation validation of the implementation's own output: for a well-formed flow
     on which the implementation returned subroutines, the validator of
-    [Model/LinearCheck.v] must accept them (then [C26_linearize_correct_partial]
+    [Model/LinearCheck.v] must accept them (then [C26_validated_correct]
     applies to that very output, for all oracles). *)
 From Acg Require Import Model.LinearCheck.
 Definition case_valid (c : list N * option (list N)) : bool :=
